@@ -17,10 +17,10 @@ import numpy as np
 
 from rv import gen, oracle
 
-_RIDERS = ["C01", "C02", "C03", "C06", "C09", "C10", "C11", "C12", "C13", "C14", "C19", "C07", "C17"]
-_RIDE_CASES = {"quick": {"C01": 60, "C02": 30, "C03": 30, "C06": 30, "C09": 25, "C10": 40, "C11": 16,
+_RIDERS = ["C01", "C02", "C03", "C04", "C05", "C06", "C09", "C10", "C11", "C12", "C13", "C14", "C19", "C07", "C17"]
+_RIDE_CASES = {"quick": {"C04": 40, "C05": 60, "C01": 60, "C02": 30, "C03": 30, "C06": 30, "C09": 25, "C10": 40, "C11": 16,
                          "C12": 12, "C13": 30, "C14": 30, "C19": 40, "C07": 20, "C17": 6},
-               "thorough": {"C01": 600, "C02": 300, "C03": 300, "C06": 200, "C09": 200, "C10": 300, "C11": 100,
+               "thorough": {"C04": 300, "C05": 600, "C01": 600, "C02": 300, "C03": 300, "C06": 200, "C09": 200, "C10": 300, "C11": 100,
                             "C12": 60, "C13": 200, "C14": 200, "C19": 300, "C07": 120, "C17": 30}}
 
 
@@ -142,6 +142,20 @@ PURITY_TARGETS = [
     "pgmpy.estimators.CITests:modified_log_likelihood",
     "pgmpy.estimators.CITests:power_divergence",
     "pgmpy.estimators.CITests:pearsonr",
+    "pgmpy.factors.discrete.DiscreteFactor:DiscreteFactor.product",
+    "pgmpy.factors.discrete.DiscreteFactor:DiscreteFactor.sum",
+    "pgmpy.factors.discrete.DiscreteFactor:DiscreteFactor.divide",
+    "pgmpy.factors.discrete.DiscreteFactor:DiscreteFactor.marginalize",
+    "pgmpy.factors.discrete.DiscreteFactor:DiscreteFactor.maximize",
+    "pgmpy.factors.discrete.DiscreteFactor:DiscreteFactor.reduce",
+    "pgmpy.factors.discrete.DiscreteFactor:DiscreteFactor.normalize",
+    "pgmpy.factors.discrete.DiscreteFactor:DiscreteFactor.copy",
+    "pgmpy.factors.discrete.CPD:TabularCPD.marginalize",
+    "pgmpy.factors.discrete.CPD:TabularCPD.reduce",
+    "pgmpy.factors.discrete.CPD:TabularCPD.normalize",
+    "pgmpy.factors.discrete.CPD:TabularCPD.reorder_parents",
+    "pgmpy.factors.discrete.CPD:TabularCPD.to_factor",
+    "pgmpy.factors.discrete.CPD:TabularCPD.copy",
     "pgmpy.factors.base:factor_product",
     "pgmpy.factors.base:factor_divide",
     "pgmpy.factors.base:factor_sum_product",
